@@ -13,12 +13,15 @@ from ..util import (has_call, find_calls, assigned_value, const_str, unparse, kw
 from .. import mutate as M
 from . import c02
 
+TECHNIQUE = 'static analysis: AST def-use and CFG dominance rules (seed store precedes every run path, natural-order sort keys), package scan for process-dependent sources, composed copy-flag / cross-read-state / chunk-limit rules of C03, C04, C08'
+
 EXPLANATION = ("Static rules over Experiment.run, MakeTasks/ChunkTasks, CobaMultiprocessor, the evaluators and "
                "TransactionResult: the experiment seed is stored before and deleted after the pipeline run on every CFG "
                "path and is marshalled into every worker; every evaluator seeds SafeLearner/CobaRandom with "
                "'own seed else experiment_seed'; ids are dense first-appearance numbers assigned only in MakeTasks.read; "
                "chunking partitions the tasks; the result rebuild iterates only through sorted(); no time/hash/id/"
                "unseeded randomness reaches a recorded value; no set is iterated into ordered output.")
+EXPLANATION += ' R8: state cannot flow between tasks through shared objects (copy flag over all triples, no cross-read filter state, per-child limit counts input chunks).'
 
 EXP = "coba/experiments/core.py"
 PROC = "coba/experiments/process.py"
